@@ -1,5 +1,6 @@
 import WhVerif.Util.Proto
 import WhVerif.Model.C16
+import WhVerif.Model.C16Select
 namespace WhVerif.Driver.C16
 open Lean WhVerif.Proto WhVerif.C16
 
@@ -10,6 +11,20 @@ def parseRead (j : Json) : Option ReadKey := do
     some ⟨(← asNat? hv) != 0, ← asNat? fp, ← asNat? h, ← natList? nm, ← asInt? sid⟩
   | _ => none
 
+/-- a read with its selection payload `[hasVariants, firstPos, nameHash, name, sourceId, [positions], [qualities], preferred]` -/
+def parseSelRead (j : Json) : Option SelRead := do
+  match ← asArr? j with
+  | [hv, fp, h, nm, sid, ps, qs, pf] =>
+    some (⟨(← asNat? hv) != 0, ← asNat? fp, ← asNat? h, ← natList? nm, ← asInt? sid⟩,
+          { pos := ← natList? ps, qual := ← intList? qs, pref := (← asNat? pf) != 0 })
+  | _ => none
+
+def outJson : WhVerif.C07.Outcome → Json
+  | .valueError => Json.str "ValueError"
+  | .misuse => Json.str "misuse"
+  | .outOfFuel => Json.str "outOfFuel"
+  | .ok sel => ofNatList (WhVerif.C07.sortNat sel)
+
 /-- ops of property C16 are named `c16.<name>` -/
 def handle (op : String) (j : Json) : Option Json :=
   if op == "c16.sort" then
@@ -18,5 +33,13 @@ def handle (op : String) (j : Json) : Option Json :=
       let sorted := sortReads (rs.map (fun r => (r, ())))
       some (Json.arr (sorted.map (fun r => Json.arr #[ofNatList r.1.name, ofInt r.1.sourceId])).toArray)
     | none => some badInput
+  else if op == "c16.select" then
+    match (getList? j "reads").bind (·.mapM parseSelRead), getNat? j "k", getBool? j "bridging" with
+    | some rs, some k, some br =>
+      let sorted := sortReads rs
+      some (Json.mkObj [("sorted", Json.arr (sorted.map (fun r => Json.arr #[ofNatList r.1.name, ofInt r.1.sourceId])).toArray),
+                        ("outcomes", ofList outJson (selectOutcomes true rs k br)),
+                        ("first", outJson (selectAfterSort true rs k br []))])
+    | _, _, _ => some badInput
   else none
 end WhVerif.Driver.C16
